@@ -434,6 +434,7 @@ class Class(object):
 
             if attr in self.__dict__:
                 self.__dict__[attr] = value
+                return
             else:
                 return object.__setattr__(self, attr, value)
         
